@@ -113,6 +113,7 @@ impl TpmServer1_2 {
 
         let mut cksum = Checksum::default();
         cksum.append(header.as_bytes());
+        cksum.append((PlatformClass::Server as u16).as_bytes());
         cksum.append(&tcg_spec_rev_bcd);
         header.checksum = cksum.value();
 
